@@ -359,7 +359,7 @@ func (r *transport) handleCacheHit(
 	}
 
 	if swr, swrValid := ccResp.StaleWhileRevalidate(); freshness.IsStale && swrValid {
-		age := freshness.Age.Value + r.clock.Since(freshness.Age.Timestamp)
+		age := internal.SaturatingAdd(freshness.Age.Value, r.clock.Since(freshness.Age.Timestamp))
 		staleFor := age - freshness.UsefulLife
 		if staleFor >= 0 && staleFor < swr {
 			return r.handleStaleWhileRevalidate(
